@@ -318,7 +318,7 @@ class Aggregate:
             return
         crash_is_failure = getattr(self.mod, "CRASH_IS_VIOLATION", True)
         res2, crashes2, hangs2 = run_cases(self.prop, redo, self.mod.FLAVOUR, self.scratch,
-                                           case_timeout * getattr(self.mod, "HANG_CONFIRM_FACTOR", 10),
+                                           case_timeout * getattr(self.mod, "HANG_CONFIRM_FACTOR", 2),
                                            extra_env=extra_env, nproc=min(NPROC, len(redo)))
         for cid in list(self.crashes):
             if cid in crashes2:
